@@ -136,11 +136,22 @@ struct Emit<'a> {
     counter: u32,
     budget: u32,
     used_kinds: Vec<&'static str>,
+    taken: Vec<String>,
 }
 
 impl Emit<'_> {
     fn fresh(&mut self, p: &str) -> String {
         self.counter += 1;
+        // external variables and top-level arguments live in separate namespaces: now and then an external variable
+        // takes the name of a top-level parameter (p0 / p1)
+        if (p == "e" || p == "c" || p == "cf") && self.rng.chance(1, 4) {
+            for cand in ["p0", "p1"] {
+                if !self.taken.iter().any(|t| t == cand) {
+                    self.taken.push(cand.to_string());
+                    return cand.to_string();
+                }
+            }
+        }
         format!("{p}{}", self.counter)
     }
 
@@ -313,7 +324,7 @@ pub fn gen_world(seed: u64) -> C12World {
             tree.push((o.clone(), Entry::File(b"previous content\n".to_vec())));
         }
     }
-    let mut em = Emit { rng: &mut rng, files: Vec::new(), args: Vec::new(), env: vec![("NO_COLOR".into(), "1".into())], counter: 0, budget: 4, used_kinds: Vec::new() };
+    let mut em = Emit { rng: &mut rng, files: Vec::new(), args: Vec::new(), env: vec![("NO_COLOR".into(), "1".into())], counter: 0, budget: 4, used_kinds: Vec::new(), taken: Vec::new() };
     let mut body = em.emit(&value, 0);
     // top-level arguments
     let mut tla_args: Vec<String> = Vec::new();
@@ -495,6 +506,15 @@ pub fn gen_world(seed: u64) -> C12World {
     argv.extend(tla_args);
     argv.extend(extra_flags);
     let mut stdin = None;
+    if matches!(mode.input, InputKind::File | InputKind::Stdin) && em.rng.chance(1, 10) {
+        // a program of several read-buffer sizes (it arrives in more than one read; a comment does not change its value)
+        let mut pad = String::from("/* ");
+        for _ in 0..(3000 + em.rng.usize_below(4000)) {
+            pad.push_str("padding é€🙂 ");
+        }
+        pad.push_str("*/ ");
+        body = format!("{pad}{body}");
+    }
     if !drop_input {
         match mode.input {
             InputKind::File => {
